@@ -577,6 +577,19 @@ def gen_numeric_case(rnd, kind, big):
     return {"kind": kind, "G": G, "S": S, "cap": cap, "pool": [[[fr(x) for x in row] for row in m] for m in pool], "ops": ops}
 
 
+def gen_big_grid_case(rnd):
+    """grids of >= 1000 points take the FFT path of `_convolve_two_children` (and any other large-grid special case): a pair
+    is convolved first, then supersets that reuse the memoised pair, in other orders, with hits on both tables"""
+    G = rnd.choice([1000, 1001])
+    pool = [gen_values(rnd, 1, G, bits=2) for _ in range(3)]
+    a, b, c = rnd.sample(range(3), 3)
+    ops = [[a, b], [a, b, c], [b, a], [c, b, a]]
+    if rnd.random() < 0.5:
+        ops.insert(2, "clear")
+    return {"kind": "logS", "G": G, "S": 1, "cap": None, "pool": [[[fr(x) for x in row] for row in m] for m in pool], "ops": ops,
+            "tol": 1e-6}
+
+
 def gen_lru_case(rnd):
     cap = rnd.choice([0, 1, 2, 3, 4])
     ops = []
@@ -661,6 +674,8 @@ def cases(tier, rnd):
         out.append(gen_numeric_case(rnd, "logS", big))
     for _ in range(25 * mult):
         out.append(gen_numeric_case(rnd, "conv", big))
+    for _ in range(2 if not big else 6):
+        out.append(gen_big_grid_case(rnd))
     for _ in range(40 * mult):
         out.append(gen_prop_case(rnd, big))
     for _ in range(45 * mult):
@@ -780,10 +795,12 @@ def check_numeric(ctx, case, use_model):
                 ctx.corr_fail(case, f"operation #{i} {case['ops'][i]}: code (hit={r[0]}, size={r[2]}) vs model (hit={m['hit']}, size={m['size']})", None)
                 break
             mv = np.array([[logq(x) for x in row] for row in m["val"]])
-            if not arr_close(r[1], mv, TOL_MODEL):
+            if not arr_close(r[1], mv, case.get("tol", TOL_MODEL)):
                 ctx.corr_fail(case, f"operation #{i} {case['ops'][i]}: value differs from the model", {"code": np.asarray(r[1]).tolist(), "model": mv.tolist()})
                 break
     hits = sum(1 for r in real if r and r[0])
+    if G >= 1000:
+        ctx.stat("grid_1000_or_more_fft_path")
     ctx.done(case, nontrivial=hits > 0, sample={k: case[k] for k in ("kind", "G", "S", "cap", "ops")})
 
 
